@@ -33,6 +33,26 @@ META = {
              'verb/suffix; tail = remaining segments joined by "/"); extraction cannot panic on an admitted path. '
              'RouterJSR311: S.jsr_route_bindings evaluated on the parameters real handlers see + model correspondence (partial).',
         design_ref='DESIGN.md section 6, C04', note=NOTE_ROUTING, technique=TECH),
+    'C09': dict(
+        text='Theorems Props.C09, C09_granted, C09_once (Coq, no axioms): for every oracle, configuration, set of routable '
+             'methods and request from an allowed origin, a preflight is answered by the filter alone (the result does not '
+             'depend on the rest of the chain) and carries the grant headers exactly when the requested method is allowed and '
+             'every requested header is allowed ignoring case or by wildcard, else no header at all; any other request continues '
+             'with the actual-request headers, each once. "Methods routable at the URL" is the model of computeAllowedMethods '
+             '(over-approximate for nested roots: see C17 known findings; the correspondence compares it with the code). '
+             'Histories: sequences of preflights to different URLs on ONE filter value are compared request by request '
+             '(value receiver: no state survives a call).',
+        design_ref='DESIGN.md section 6, C09',
+        note='trusted: Coq kernel, extraction+driver, Go harness; strings.ToLower and regexp are oracles; differential tie',
+        technique=TECH),
+    'C17': dict(
+        text='Theorem Props.C17_allow405 (Coq, no axioms; both routers, every table): the Allow list of a 405 is exactly the set '
+             'of methods not answered 404/405 at that URL. Theorem C17_options_filter: the OPTIONS filter answers OPTIONS itself '
+             'with computeAllowedMethods and passes every other method untouched. The full statement for the OPTIONS filter is '
+             'refuted in Coq with two witnesses (C17_refuted_nested_roots, C17_refuted_empty_segment) that replay on the real '
+             'code: known findings K-C17-1 / K-C17-2. The check evaluates the set equality on the implementation (Allow and '
+             'Access-Control-Allow-Methods vs one probe per method) and reports anything outside the two finding classes.',
+        design_ref='DESIGN.md section 6, C17', note=NOTE_ROUTING, technique=TECH),
     'C14': dict(
         text='Theorem Props.C14_curly (Coq, no axioms): under CurlyRouter, for every table, request and path p with a non-slash '
              'byte, routing p and p + "/" gives the same outcome (invoked route, parameter values, error status, Allow list), by '
